@@ -15,8 +15,8 @@ Vocabulary (all in `Gocc.FScan`):
   with white space, the body of `Scan` returns one token of type `ty ≠ EOF` with literal `t` and
   stops at `x` (and `t` is non-empty and does not begin with white space).
   `ScansAsOne u t := ∃ ty, ScansAs u t ty`.  Inhabitants (`scansAs_punct`, `scansAs_ident`,
-  `scansAs_charLit`, `scansAs_stringLit`, `scansAs_sdtLit`): the one-byte tokens, ASCII identifiers,
-  `'c'`, `"…"` and `<< … >>` over plain ASCII.
+  `scansAs_charLit`, `scansAs_charLit_esc`, `scansAs_stringLit`, `scansAs_sdtLit`): the one-byte tokens,
+  ASCII identifiers, `'c'`, `'\n'`, `"…"` and `<< … >>` over plain ASCII.
 * `IsGap g` — `g` is a concatenation of white-space runs, `/* body */` comments whose body does not
   contain `*/`, and `// body ⏎` comments (arbitrary bytes otherwise, invalid UTF-8 included);
   `IsSep g` — a gap that begins with a white-space byte.
@@ -174,6 +174,11 @@ theorem C13_scansAs_ident (u : UnicodeOracle) {b : Nat} {r : List Nat}
 theorem C13_scansAs_charLit (u : UnicodeOracle) {c : Nat} (h0 : 0 < c) (h1 : c < 0x80)
     (hq : c ≠ 39) (hb : c ≠ 92) (hn : c ≠ 10) : ScansAs u [39, c, 39] 9 :=
   scansAs_charLit u h0 h1 hq hb hn
+
+/-- `'\e'` for a simple escape `e` (one of `a b f n r t v \ ' "`) -/
+theorem C13_scansAs_charLit_esc (u : UnicodeOracle) {e : Nat}
+    (he : e = 97 ∨ e = 98 ∨ e = 102 ∨ e = 110 ∨ e = 114 ∨ e = 116 ∨ e = 118 ∨ e = 92 ∨ e = 39 ∨
+      e = 34) : ScansAs u [39, 92, e, 39] 9 := scansAs_charLit_esc u he
 
 /-- `"body"` -/
 theorem C13_scansAs_stringLit (u : UnicodeOracle) {body : List Nat}
